@@ -27,7 +27,7 @@ ANCHORS = [("leuvenmapmatching/matcher/base.py", "BaseMatcher.do_stop"),
            ("leuvenmapmatching/util/dist_latlon.py", "distance_point_to_segment")]
 FLOORS = {"emitting_edge_states": 6000, "clamped_projections": 800, "interior_projections": 2500, "state_exactly_at_max_dist": 20,
           "emitting_node_states": 800, "paths_judged": 4000, "latlon_paths": 600, "tightened_cases": 600, "paths_with_finite_max_dist": 1500,
-          "paths_with_min_prob": 1200}
+          "paths_with_min_prob": 1200, "linked_edge_paths": 400, "paths_using_a_linked_move": 30}
 ASSUMPTIONS = ["planar nearest points judged at 1e-6*extent + 64 ulp; latitude-longitude at 0.25 m (noise floor of the cross-/along-track formulation)"]
 UNIT_M = 30.0
 
@@ -57,6 +57,20 @@ def gen_case(rng, i, tier):
         cfg = case["cfg"]
         if cfg["max_dist"] is None and cfg["max_dist_init"] is None:
             cfg["max_dist"] = rng.choice([None, 60.0, 150.0])
+    if not latlon and case["cfg"]["family"] != "simple_nodes" and rng.random() < 0.2:
+        # linked parallel edges: the matched edge need not start where the previous one ended, so a state that carries the
+        # labels of one edge and the geometry of another shows up against the map's own coordinates
+        es = gen.real_edges(case["map"])
+        if len(es) >= 2:
+            linked = []
+            for _ in range(rng.randint(1, 4)):
+                a, b = rng.sample(es, 2)
+                linked.append([list(a), list(b)])
+                if rng.random() < 0.5:
+                    linked.append([list(b), list(a)])
+            case["map"]["linked"] = linked
+            if rng.random() < 0.7:
+                case["cfg"]["non_emitting"] = True
     if rng.random() < 0.45:
         mcase.tighten(case, rng)
     case["ops"] = gen.gen_history(rng, len(case["trace"]), case["cfg"]["width"], allow_cwd=False, max_ops=2)
@@ -86,6 +100,12 @@ def check_case(ctx, case):
         ctx.count("paths_judged")
         if model.latlon:
             ctx.count("latlon_paths")
+        if case["map"].get("linked"):
+            ctx.count("linked_edge_paths")
+            lk = {(tuple(a), tuple(b)) for a, b in case["map"]["linked"]}
+            lb = mt.lattice_best
+            if any((x.shortkey, y.shortkey) in lk for x, y in zip(lb, lb[1:])):
+                ctx.count("paths_using_a_linked_move")
         if not math.isinf(mt.max_dist):
             ctx.count("paths_with_finite_max_dist")
         if not math.isinf(mt.min_logprob_norm):
